@@ -136,7 +136,18 @@ Definition known_F1c : list row :=
     ROpt "authenticators" "jwt" "assertions.<any>";
     ROpt "authenticators" "oauth2_introspection" "assertions.<any>" ].
 
-Definition known_F1 : list row := known_F1a ++ known_F1b ++ known_F1c.
+(** found when the tables got value classes (audit): emptiness of lists/maps —
+    the remote authorizer's [expressions] may not be empty for the schema
+    (minItems 1) but may for the loader; the header/cookie finalizers' maps may not
+    be empty for the loader (gt=0) but may for the schema *)
+Definition known_F1d : list row :=
+  [ ROpt "authorizers" "remote" "expressions";
+    ROpt "finalizers" "cookie" "cookies";
+    ROpt "finalizers" "header" "headers" ].
+
+Definition fixed_F1d : bool := false.
+
+Definition known_F1 : list row := known_F1a ++ known_F1b ++ known_F1c ++ known_F1d.
 
 (** flipped by hand when the repair of group c is applied to /repo *)
 Definition fixed_F1c : bool := true.
@@ -144,7 +155,7 @@ Definition fixed_F1c : bool := true.
 (** [fa]/[fb]: the repair of the group is in the tree, its rows are no longer excused *)
 Definition guard_F1 (fa fb : bool) (r : row) : bool :=
   existsb (row_eqb r) ((if fa then [] else known_F1a) ++ (if fb then [] else known_F1b) ++
-                       (if fixed_F1c then [] else known_F1c)).
+                       (if fixed_F1c then [] else known_F1c) ++ (if fixed_F1d then [] else known_F1d)).
 
 (** flipped by hand when a repair is applied to /repo *)
 Definition fixed_F1a : bool := true.
